@@ -76,6 +76,13 @@ def main():
                     try:
                         f = json.load(open(os.path.join(VERIF, rp))).get("failure")
                         if f:
+                            # the replay must fail on the changed tree and pass on the real one
+                            rm = run([os.path.join(VERIF, "check"), c, "--replay", rp], env=env, cwd=VERIF)
+                            rc_ = run([os.path.join(VERIF, "check"), c, "--replay", rp],
+                                      env=dict(os.environ, VERIF_REPO=REPO), cwd=VERIF)
+                            row[c] += " [replay: mutant %s, clean %s]" % (
+                                "fails" if rm.returncode == 1 else "DOES-NOT-FAIL(rc=%d)" % rm.returncode,
+                                "holds" if rc_.returncode == 0 else "DOES-NOT-HOLD(rc=%d)" % rc_.returncode)
                             row[c] += " | " + f["what"] + " " + json.dumps(f["case"])[:160]
                     except Exception:
                         pass
